@@ -116,6 +116,8 @@ class Solver(Tracked):
     def add_variables(self, indexes, name_prefix="", lb=0, ub=1, var_type="integer"):
         if isinstance(indexes, list) and all(isinstance(x, tuple) for x in indexes):      # concrete instance: an explicit index list
             indexes = concrete_idx(str(name_prefix) + "_indexes", indexes, len(indexes[0]) if indexes else self.families[name_prefix][1])
+        if isinstance(indexes, SymSeq):             # an unfiltered list comprehension is already a sequence
+            indexes = LazyMap("list", (lambda el: el), indexes, None)
         if isinstance(indexes, LazyMap):
             # [(u,v) for (u,v) in G.edges() if (u,v) not in edges_to_ignore]: recognised (and checked) as the set of non-ignored edges
             g, c = self.graph, core.ctx()
@@ -124,11 +126,13 @@ class Solver(Tracked):
             el = indexes.seq.at(j)
             key = indexes.fn(el)
             kept = bool(indexes.flt(el)) if indexes.flt is not None else True          # a decision on this path
-            same = isinstance(key, tuple) and len(key) == 2 and c._valid(z3.And(lift(indexes.seq.length()) == g.n, lift(key[0]) == g.EU(j), lift(key[1]) == g.EV(j),
-                                                                                 self.basic_pred(g.EU(j), g.EV(j)) == z3.BoolVal(kept)))
-            if not same:
-                raise Unsupported("add_variables over a comprehension that is not recognised as `the non-ignored edges`")
-            indexes = IdxSet("edge_indexes_basic", self.basic_pred, 2)
+            is_edges = isinstance(key, tuple) and len(key) == 2 and c._valid(z3.And(lift(indexes.seq.length()) == g.n, lift(key[0]) == g.EU(j), lift(key[1]) == g.EV(j)))
+            if is_edges and indexes.flt is None:
+                indexes = IdxSet("all_edges", lambda a, b: g.EDGE(a, b), 2)
+            elif is_edges and c._valid(self.basic_pred(g.EU(j), g.EV(j)) == z3.BoolVal(kept)):
+                indexes = IdxSet("edge_indexes_basic", self.basic_pred, 2)
+            else:
+                raise Unsupported("add_variables over a comprehension that is not recognised as `the edges` / `the non-ignored edges`")
         if not isinstance(indexes, IdxSet):
             raise Unsupported("add_variables over something else than a declared index set")
         if name_prefix not in self.families:
@@ -499,5 +503,198 @@ def cyc_units():
     return out
 
 
+# =====================================================================================================================
+# MinErrorFlow._encode_flow (C16): every admitted assignment is a flow (conservation at every inner node) whose error columns bound |flow - x|
+
+def u_min_error_flow(wt):
+    P = "C16"
+    XV = z3.Function("corrected_flow_var", INT, INT, REAL)
+    ER = z3.Function("edge_error_var", INT, INT, REAL)
+    NODE = z3.Function("node_at", INT, INT)
+    INDEG, OUTDEG = z3.Function("in_degree", INT, INT), z3.Function("out_degree", INT, INT)
+    INU, OUTV = z3.Function("in_neighbour", INT, INT, INT), z3.Function("out_neighbour", INT, INT, INT)
+    HAS = z3.Function("has_flow_attr", INT, INT, BOOL)
+    st = {}
+
+    def conserve(v):
+        return st["INSUM"](v, INDEG(v)) == st["OUTSUM"](v, OUTDEG(v))
+
+    def interior(v):
+        return z3.And(INDEG(v) != 0, OUTDEG(v) != 0)
+
+    def erow(g, u, v):
+        return z3.If(IGN(u, v), ER(u, v) == 0, z3.And(g.FLOW(u, v) - XV(u, v) <= ER(u, v), XV(u, v) - g.FLOW(u, v) <= ER(u, v)))
+
+    def inv_nodes(ns, seq, done):
+        j = z3.Int("nj")
+        return {"rows-so-far=exactly-conservation-at-the-inner-nodes-seen":
+                lift(ns["self"].solver.store.holds) == z3.And(st["H1"], z3.ForAll([j], z3.Implies(z3.And(j >= 0, j < lift(done), interior(NODE(j))), conserve(NODE(j)))))}
+
+    def on_entry_edges(ns, it=None):
+        st["H2"] = lift(ns["self"].solver.store.holds)
+
+    def inv_edges(ns, seq, done):
+        g = st["g"]
+        j = z3.Int("ej")
+        return {"rows-so-far=exactly-(error-rows)-on-the-edges-seen-and-every-non-ignored-edge-seen-has-a-value":
+                z3.And(lift(ns["self"].solver.store.holds) == z3.And(st["H2"], z3.ForAll([j], z3.Implies(z3.And(j >= 0, j < lift(done)), erow(g, g.EU(j), g.EV(j))))),
+                       z3.ForAll([j], z3.Implies(z3.And(j >= 0, j < lift(done), z3.Not(IGN(g.EU(j), g.EV(j)))), HAS(g.EU(j), g.EV(j)))))}
+
+    def h(c, f):
+        g = Graph(c)
+        st["g"] = g
+        nn = c.fresh_const("n_nodes", INT)
+        ub = c.fresh_const("ub", REAL)
+        c.assume(z3.And(nn >= 0, ub >= 0))
+        v, j, u = z3.Ints("hv hj hu")
+        # A2: in_edges(v) / out_edges(v) enumerate exactly the edges into / out of v, each once
+        c.assume(z3.ForAll([v], z3.And(INDEG(v) >= 0, OUTDEG(v) >= 0)))
+        c.assume(z3.ForAll([v, j], z3.Implies(z3.And(j >= 0, j < INDEG(v)), g.EDGE(INU(v, j), v))))
+        c.assume(z3.ForAll([v, j], z3.Implies(z3.And(j >= 0, j < OUTDEG(v)), g.EDGE(v, OUTV(v, j)))))
+        st["INSUM"] = prefix_sum(c, "inflow_of_node", lambda a, q: XV(INU(a, q), a), 1)
+        st["OUTSUM"] = prefix_sum(c, "outflow_of_node", lambda a, q: XV(a, OUTV(a, q)), 1)
+        from pyvc.heap import STuple
+
+        class GG:
+            source, sink = g.source, g.sink
+            def edges(self, data=False):
+                if data:
+                    return SymSeq(g.n, lambda q: (Sym(g.EU(lift(q))), Sym(g.EV(lift(q))), DataA(g.EU(lift(q)), g.EV(lift(q)))), None, "edges")
+                return g.edges()
+            def nodes(self): return SymSeq(nn, lambda q: Sym(NODE(lift(q))), SInt, "nodes")
+            def in_degree(self, a):
+                st["node"] = lift(a)          # the node of the current iteration (the sums below are over its edges)
+                return Sym(INDEG(lift(a)))
+            def out_degree(self, a): return Sym(OUTDEG(lift(a)))
+            def in_edges(self, a): return SymSeq(INDEG(lift(a)), lambda q: (Sym(INU(lift(a), lift(q))), a), STuple(SInt, SInt), "in_edges")
+            def out_edges(self, a): return SymSeq(OUTDEG(lift(a)), lambda q: (a, Sym(OUTV(lift(a), lift(q)))), STuple(SInt, SInt), "out_edges")
+
+        class DataA:
+            def __init__(self, a, b): self.a, self.b = a, b
+            def __contains__(self, key): return core.ctx().decide(HAS(self.a, self.b), "has-flow-attr")
+            def __getitem__(self, key):
+                core.ctx().prove("pre:data[flow_attr]-only-where-the-value-exists", HAS(self.a, self.b), kind="pre")
+                return Sym(g.FLOW(self.a, self.b))
+
+        class Me(Tracked):
+            pass
+        me = Me()
+        sol = Solver({"edge_vars": (XV, 2), "edge_error_vars": (ER, 2)})
+        sol.graph, sol.basic_pred = g, (lambda a, b: z3.And(g.EDGE(a, b), z3.Not(IGN(a, b))))
+
+        def linked_sum(it):
+            r = Solver.quicksum(sol, it)
+            bs = c.sums[-1]
+            jj = z3.Int(c.name("tj"))
+            t = bs.t(jj)
+            node = st.get("node")
+            for S, term, deg in ((st["INSUM"], lambda q: XV(INU(node, q), node), INDEG(node)), (st["OUTSUM"], lambda q: XV(node, OUTV(node, q)), OUTDEG(node))):
+                if c._valid(z3.And(bs.n == deg, t == term(jj))):
+                    link_sum(c, "sum-built-by-the-code=flow-%s-the-node" % ("into" if S is st["INSUM"] else "out-of"), lambda q: S(node, q),
+                             lambda q: z3.Implies(q >= 0, S(node, q + 1) == S(node, q) + term(q)), deg, prop=P)
+                    return r
+            raise Unsupported("sum over something else than the in- / out-edges of the current node: %s" % t)
+        sol.quicksum = linked_sum
+        orig_add = sol.add_variables
+
+        def add_variables(*a, **kw):
+            r = orig_add(*a, **kw)
+            st["H1"] = lift(sol.store.holds)
+            return r
+        sol.add_variables = add_variables
+        me.solver, me.G, me.ub, me.flow_attr = sol, GG(), Sym(ub), "flow"
+        me.weight_type = BUILTINS["int"] if wt is int else BUILTINS["float"]
+        me.edges_to_ignore = Member(IGN, "ignored")
+        me.edge_vars, me.edge_error_vars = {}, {}
+        H0 = lift(sol.store.holds)
+        try:
+            f(me)
+        except ValueError:
+            c.prove("xpost:ValueError-only-if-a-non-ignored-edge-has-no-value", z3.Exists([u, v], z3.And(g.EDGE(u, v), z3.Not(IGN(u, v)), z3.Not(HAS(u, v)))), prop=P, kind="xpost")
+            return
+        H = lift(sol.store.holds)
+        num = lambda t: z3.And(0 <= t, t <= ub, *([z3.IsInt(t)] if wt is int else []))
+        bnd = z3.ForAll([u, v], z3.Implies(g.EDGE(u, v), z3.And(num(XV(u, v)), num(ER(u, v)))))
+        spec = z3.And(z3.ForAll([j], z3.Implies(z3.And(j >= 0, j < nn, interior(NODE(j))), conserve(NODE(j)))),
+                      z3.ForAll([u, v], z3.Implies(g.EDGE(u, v), erow(g, u, v))))
+        full = z3.And(H0, bnd, spec)
+        c.prove("post:one-corrected-flow-column-and-one-error-column-per-edge,-in-[0,ub],-of-the-requested-numeric-type",
+                z3.BoolVal({nm: r["var_type"] for nm, r in sol.created.items()} == {"edge_vars": "integer" if wt is int else "continuous", "edge_error_vars": "integer" if wt is int else "continuous"}
+                           and all(r["indexes"].name == "all_edges" for r in sol.created.values())), prop=P)
+        c.prove("post:SOUND-every-admitted-assignment-conserves-flow-at-every-inner-node-and-its-error-columns-bound-|value - corrected|-(0-on-ignored-edges)", z3.Implies(H, full), prop=P)
+        c.prove("post:COMPLETE-nothing-else-is-excluded", z3.Implies(full, H), prop=P)
+        c.prove("post:normal-return-only-if-every-non-ignored-edge-has-a-value", z3.ForAll([u, v], z3.Implies(z3.And(g.EDGE(u, v), z3.Not(IGN(u, v))), HAS(u, v))), prop=P)
+
+    def concrete(inst):
+        def hc(c, f):
+            E = [tuple(e) for e in inst["edges"]]
+            ign, missing = set(map(tuple, inst.get("ign", ()))), set(map(tuple, inst.get("missing", ())))
+            nodes = sorted({a for e in E for a in e})
+            ub = c.fresh_const("ub", REAL)
+            c.assume(ub >= 0)
+
+            class Data(dict):
+                pass
+
+            class GG:
+                def edges(self, data=False):
+                    return [(a, b, Data({} if (a, b) in missing else {"flow": Sym(FLOWC(a, b))})) for a, b in E] if data else list(E)
+                def nodes(self): return list(nodes)
+                def in_degree(self, a): return sum(1 for e in E if e[1] == a)
+                def out_degree(self, a): return sum(1 for e in E if e[0] == a)
+                def in_edges(self, a): return [e for e in E if e[1] == a]
+                def out_edges(self, a): return [e for e in E if e[0] == a]
+
+            class Me(Tracked):
+                pass
+            me = Me()
+            sol = Solver({"edge_vars": (XV, 2), "edge_error_vars": (ER, 2)})
+            me.solver, me.G, me.ub, me.flow_attr = sol, GG(), Sym(ub), "flow"
+            me.weight_type = BUILTINS["int"] if wt is int else BUILTINS["float"]
+            me.edges_to_ignore = ign
+            me.edge_vars, me.edge_error_vars = {}, {}
+            H0 = lift(sol.store.holds)
+            must_raise = any(e not in ign for e in missing)
+            try:
+                f(me)
+            except ValueError:
+                c.prove("instance:ValueError-only-if-a-non-ignored-edge-has-no-value", z3.BoolVal(must_raise), prop=P)
+                return
+            c.prove("instance:normal-return-only-if-every-non-ignored-edge-has-a-value", z3.BoolVal(not must_raise), prop=P)
+            H = lift(sol.store.holds)
+            num = lambda t: z3.And(0 <= t, t <= ub, *([z3.IsInt(t)] if wt is int else []))
+            rows = [z3.And(num(XV(a, b)), num(ER(a, b))) for a, b in E]
+            for v in nodes:
+                ins, outs = [e for e in E if e[1] == v], [e for e in E if e[0] == v]
+                if ins and outs:
+                    rows.append(sum([XV(*e) for e in ins], z3.RealVal(0)) == sum([XV(*e) for e in outs], z3.RealVal(0)))
+            for a, b in E:
+                rows.append(ER(a, b) == 0 if (a, b) in ign else z3.And(FLOWC(a, b) - XV(a, b) <= ER(a, b), XV(a, b) - FLOWC(a, b) <= ER(a, b)))
+            full = z3.And(H0, *rows)
+            c.prove("instance:SOUND-every-admitted-assignment-conserves-flow-at-every-inner-node-and-its-error-columns-bound-the-change", z3.Implies(H, full), prop=P)
+            c.prove("instance:COMPLETE-nothing-else-is-excluded", z3.Implies(full, H), prop=P)
+        return hc
+
+    def instances():
+        return [(lab, concrete(inst)) for lab, inst in (
+            ("path-of-3-edges", dict(edges=[(0, 1), (1, 2), (2, 3)])),
+            ("diamond-with-a-chord,one-ignored", dict(edges=[(0, 1), (0, 2), (1, 2), (1, 3), (2, 3)], ign=[(1, 2)])),
+            ("cycle-with-entry-and-exit", dict(edges=[(0, 1), (1, 2), (2, 1), (2, 3)])),
+            ("self-loop", dict(edges=[(0, 1), (1, 1), (1, 2)])),
+            ("value-missing-on-an-ignored-edge", dict(edges=[(0, 1), (1, 2)], ign=[(1, 2)], missing=[(1, 2)])),
+            ("value-missing-on-a-non-ignored-edge", dict(edges=[(0, 1), (1, 2)], missing=[(1, 2)])))]
+
+    fresh = lambda old: Sym(z3.Bool(core.ctx().name("H")))
+    mod = [(("self", "solver", "store", "holds"), fresh)]
+
+    loops = {0: dict(inv=inv_nodes, prop=P, modifies=mod, keep=("node",)),
+             1: dict(inv=inv_edges, prop=P, on_entry=on_entry_edges, modifies=mod, keep=("u", "v", "data", "f_u_v"))}
+
+    unit = Unit("flowpaths/minerrorflow.py", "MinErrorFlow._encode_flow", h, globs=dict(utils=UtilsStub), loops=loops, props=[P],
+                name="flowpaths/minerrorflow.py:MinErrorFlow._encode_flow[weight_type=%s]" % wt.__name__, callee_contracts=[A1C], instances=instances,
+                assumptions=[A3, "A2 networkx: in_edges(v) / out_edges(v) enumerate the edges into / out of v; in_degree / out_degree are their counts"])
+    return unit
+
+
 def all_units():
-    return dag_units() + cyc_units()
+    return dag_units() + cyc_units() + [u_min_error_flow(int), u_min_error_flow(float)]
